@@ -27,7 +27,7 @@ pub static DEF: PropDef = PropDef {
     level: "exploration",
     total: |t| t.pick(64, 2400),
     run,
-    rule: "one listening server and 1..8 (quick) / 1..32 (thorough) clients - in one paused scenario in 24 a crowd of 130..220 clients that have all connected and written before the server's first accept() - over sockets, TCP, IPv4, optional ARP and one link: each client issues 1..40 writes (sizes 1, 5, MSS-1, MSS, MSS+1, 4000, 70000; back-to-back or spaced by simulated sleeps) through Socket::send or TcpStream::write; the server reads each connection with recv(n)/read_exact(n)/read() using n from {1,3,4,7,100,1460,65536}, eagerly or after a late start; MTU in {100,576,1500,65535}; latency jitter 0..5 ms; H4 plans dropping <=3 consecutive frames per direction and duplicating <=2; executed on the current_thread runtime with paused clock and on the multi_thread runtime with 2, 4 or 16 workers (content checks only). Every written byte encodes (connection id, stream offset) so loss, duplication, reordering and cross-talk are told apart; every read records (n asked, bytes got). Datagram sockets: each datagram must arrive intact or not at all, at the connected peer only. Non-trivial = >=2 writes in flight at once and >=1 partial read; multi-thread runs additionally count distinct arrival-order fingerprints.",
+    rule: "one listening server and 1..8 (quick) / 1..32 (thorough) clients - in one paused scenario in 24 a crowd of 130..220 clients that have all connected and written before the server's first accept() - over sockets, TCP, IPv4, optional ARP and one link (in a third of the runs the clients also send 0..3 datagrams to a datagram socket of the same server, before their stream connects or after its first write: both transports between one pair of hosts at once): each client issues 1..40 writes (sizes 1, 5, MSS-1, MSS, MSS+1, 4000, 70000; back-to-back or spaced by simulated sleeps) through Socket::send or TcpStream::write; the server reads each connection with recv(n)/read_exact(n)/read() using n from {1,3,4,7,100,1460,65536}, eagerly or after a late start; MTU in {100,576,1500,65535}; latency jitter 0..5 ms; H4 plans dropping <=3 consecutive frames per direction and duplicating <=2; executed on the current_thread runtime with paused clock and on the multi_thread runtime with 2, 4 or 16 workers (content checks only). Every written byte encodes (connection id, stream offset) so loss, duplication, reordering and cross-talk are told apart; every read records (n asked, bytes got). Datagram sockets: each datagram must arrive intact or not at all, at the connected peer only. Non-trivial = >=2 writes in flight at once and >=1 partial read; multi-thread runs additionally count distinct arrival-order fingerprints.",
     assumptions: &[
         "bounded progress: the run must finish before the simulated timeout of 120 s (loss-free duration is well below 1 s)",
         "multi-thread runs judge content and order only; a wall-clock watchdog firing is inconclusive",
@@ -50,6 +50,10 @@ fn pat(c: u32, i: usize) -> u8 {
 
 #[derive(Clone, Debug)]
 struct ConnPlan {
+    /// datagrams this client also sends to the server's datagram socket (same pair of hosts, other transport)
+    side_dgrams: usize,
+    /// true: the datagrams leave before the stream connects; false: after the first stream write
+    side_first: bool,
     id: u32,
     writes: Vec<usize>,
     /// sleep before each write, simulated ms (0 = back to back)
@@ -93,6 +97,10 @@ fn stream_scenario(env: &Env, k: u64, case: u64, rng: &mut rand::rngs::SmallRng,
     let reader_pause_ms = if rng.chance(1, 6) && !multi { *rng.pick(&[1u64, 5, 20]) } else { 0 };
     let faults = rt == Rt::Paused && rng.chance(1, 2);
     let mut budget: usize = if multi { 30_000 } else if mtu == 100 { 40_000 } else { 400_000 };
+    // mixed transports: in a third of the runs the clients also talk to the server's datagram socket, before or
+    // while their stream is open (the two transports share hosts, addresses and the IP layer)
+    let mixed = !crowd && rng.chance(1, 3);
+    let side_port = 5353u16;
     let mut plans = vec![];
     // slow-reader probe: many small spaced writes pile up as separate messages behind a reader that starts late
     let slow_reader_probe = !multi && rng.chance(1, 8);
@@ -109,7 +117,8 @@ fn stream_scenario(env: &Env, k: u64, case: u64, rng: &mut rand::rngs::SmallRng,
             writes.push(sz);
             gaps.push(if slow_reader_probe && id == 0 { 6 } else if spaced { if multi { *rng.pick(&[0u64, 1]) } else { *rng.pick(&[0u64, 1, 5, 30]) } } else { 0 });
         }
-        plans.push(ConnPlan { id, writes, gaps, use_stream_api: rng.chance(1, 2) });
+        let side_dgrams = if mixed { rng.gen_range(0..=3usize) } else { 0 };
+        plans.push(ConnPlan { id, writes, gaps, use_stream_api: rng.chance(1, 2), side_dgrams, side_first: rng.chance(1, 2) });
     }
     if crowd {
         d.tally("crowd_runs", 1);
@@ -117,7 +126,7 @@ fn stream_scenario(env: &Env, k: u64, case: u64, rng: &mut rand::rngs::SmallRng,
     let read_api_name = ["recv", "read_exact", "read"][read_api];
     let desc = json!({
         "kind": "stream", "runtime": format!("{rt:?}"), "clients": n_clients, "mtu": mtu, "arp": with_arp, "jitter_ms": jitter,
-        "read_sizes": read_sizes, "read_api": read_api_name, "late_reader_ms": late_reader_ms, "late_accept_ms": late_accept_ms, "crowd": crowd, "slow_reader_probe": slow_reader_probe, "reader_pause_ms": reader_pause_ms, "faults": faults,
+        "read_sizes": read_sizes, "read_api": read_api_name, "late_reader_ms": late_reader_ms, "late_accept_ms": late_accept_ms, "crowd": crowd, "mixed_transports": mixed, "side_datagrams": plans.iter().map(|p| format!("conn {}: {} {}", p.id, p.side_dgrams, if p.side_first { "before connect" } else { "after first write" })).collect::<Vec<_>>(), "slow_reader_probe": slow_reader_probe, "reader_pause_ms": reader_pause_ms, "faults": faults,
         "writes": plans.iter().map(|p| json!({"conn": p.id, "sizes": p.writes, "gaps_ms": p.gaps, "api": if p.use_stream_api {"TcpStream::write"} else {"Socket::send"}})).collect::<Vec<_>>(),
         "scenario": k, "case": case,
     });
@@ -125,6 +134,7 @@ fn stream_scenario(env: &Env, k: u64, case: u64, rng: &mut rand::rngs::SmallRng,
     let accepted: Arc<Mutex<Vec<Arc<Mutex<ConnResult>>>>> = Arc::new(Mutex::new(vec![]));
     let client_errors: Arc<Mutex<Vec<String>>> = Arc::new(Mutex::new(vec![]));
     let inflight_max = Arc::new(AtomicUsize::new(0));
+    let side_got: Arc<Mutex<Vec<Vec<u8>>>> = Arc::new(Mutex::new(vec![]));
     let server_ip = 0x0A00_0001u32;
     let port = 8080u16;
 
@@ -135,6 +145,7 @@ fn stream_scenario(env: &Env, k: u64, case: u64, rng: &mut rand::rngs::SmallRng,
         let client_errors = client_errors.clone();
         let read_sizes = read_sizes.clone();
         let inflight_max = inflight_max.clone();
+        let side_got = side_got.clone();
         async move {
             let mut b = NetworkBuilder::new().mtu(mtu);
             if jitter > 0 {
@@ -197,6 +208,27 @@ fn stream_scenario(env: &Env, k: u64, case: u64, rng: &mut rand::rngs::SmallRng,
                             }
                         };
                         let mut handles = vec![];
+                        if mixed {
+                            let api = machine.protocol::<SocketAPI>().unwrap();
+                            let mut ls = api.new_socket(ProtocolFamily::INET, SocketType::Datagram, machine.clone()).await.unwrap();
+                            ls.bind(Endpoint::new(ip(0), side_port)).unwrap();
+                            ls.listen(64).unwrap();
+                            let side_got = side_got.clone();
+                            tokio::spawn(async move {
+                                loop {
+                                    let mut sock = match ls.accept().await {
+                                        Ok(s) => s,
+                                        Err(_) => break,
+                                    };
+                                    let side_got = side_got.clone();
+                                    tokio::spawn(async move {
+                                        while let Ok(m) = sock.recv_msg().await {
+                                            side_got.lock().unwrap().push(m.to_vec());
+                                        }
+                                    });
+                                }
+                            });
+                        }
                         if late_accept_ms > 0 {
                             tokio::time::sleep(ms(late_accept_ms)).await;
                         }
@@ -263,6 +295,10 @@ fn stream_scenario(env: &Env, k: u64, case: u64, rng: &mut rand::rngs::SmallRng,
                                 let key = conn.unwrap_or(u32::MAX - 1);
                                 results.lock().unwrap().insert(key, res);
                                 if remaining.fetch_sub(1, Ordering::SeqCst) == 1 {
+                                    if mixed {
+                                        // side datagrams sent after the first stream write may still be on the wire
+                                        tokio::time::sleep(ms(200)).await;
+                                    }
                                     shutdown.shut_down_with_status(ExitStatus::Status(0));
                                 }
                             }));
@@ -307,6 +343,38 @@ fn stream_scenario(env: &Env, k: u64, case: u64, rng: &mut rand::rngs::SmallRng,
                             s
                         };
                         let mut burst = 0usize;
+                        let side = {
+                            let machine = machine.clone();
+                            move || {
+                                let machine = machine.clone();
+                                async move {
+                                    let api = machine.protocol::<SocketAPI>().unwrap();
+                                    let mut sock = match api.new_socket(ProtocolFamily::INET, SocketType::Datagram, machine.clone()).await {
+                                        Ok(s) => s,
+                                        Err(_) => return,
+                                    };
+                                    if sock.connect(Endpoint::new(ip(server_ip), side_port)).await.is_err() {
+                                        return;
+                                    }
+                                    for q in 0..p.side_dgrams {
+                                        let mut v = vec![0xDD];
+                                        v.extend_from_slice(&p.id.to_be_bytes());
+                                        v.push(q as u8);
+                                        v.extend((0..10).map(|i| pat(p.id ^ 0x5a5a, i + q)));
+                                        let _ = sock.send(v);
+                                        tokio::time::sleep(ms(1)).await;
+                                    }
+                                    tokio::spawn(async move {
+                                        tokio::time::sleep(Duration::from_secs(100_000)).await;
+                                        drop(sock);
+                                    });
+                                }
+                            }
+                        };
+                        if p.side_dgrams > 0 && p.side_first {
+                            side().await;
+                            tokio::time::sleep(ms(20)).await;
+                        }
                         if p.use_stream_api {
                             let mut stream = match TcpStream::connect(Endpoint::new(ip(server_ip), port), machine.clone()).await {
                                 Ok(s) => s,
@@ -327,6 +395,9 @@ fn stream_scenario(env: &Env, k: u64, case: u64, rng: &mut rand::rngs::SmallRng,
                                     client_errors.lock().unwrap().push(format!("conn {} write: {e:?}", p.id));
                                 }
                                 off += n;
+                                if i == 0 && p.side_dgrams > 0 && !p.side_first {
+                                    side().await;
+                                }
                             }
                             // keep the socket alive until the run ends
                             tokio::time::sleep(Duration::from_secs(100_000)).await;
@@ -356,6 +427,9 @@ fn stream_scenario(env: &Env, k: u64, case: u64, rng: &mut rand::rngs::SmallRng,
                                     client_errors.lock().unwrap().push(format!("conn {} send: {e:?}", p.id));
                                 }
                                 off += n;
+                                if i == 0 && p.side_dgrams > 0 && !p.side_first {
+                                    side().await;
+                                }
                             }
                             tokio::time::sleep(Duration::from_secs(100_000)).await;
                             drop(sock);
@@ -527,6 +601,39 @@ fn stream_scenario(env: &Env, k: u64, case: u64, rng: &mut rand::rngs::SmallRng,
     if rt == Rt::Paused && elapsed > Duration::from_secs(120) + pacing_allowance {
         d.violation("bounded-progress", format!("the run needed {elapsed:?} of simulated time"), witness(json!({})));
         return;
+    }
+    if mixed {
+        // the side datagrams: each intact, from a client that sent it, at most once without duplication on the wire,
+        // and - when nothing was dropped - every one of them
+        let got = side_got.lock().unwrap().clone();
+        let mut seen: HashMap<(u32, u8), usize> = HashMap::new();
+        for g in &got {
+            let ok = g.len() == 16 && g[0] == 0xDD && {
+                let id = u32::from_be_bytes(g[1..5].try_into().unwrap());
+                let q = g[5] as usize;
+                plans.iter().any(|p| p.id == id && q < p.side_dgrams) && g[6..].iter().enumerate().all(|(i, b)| *b == pat(id ^ 0x5a5a, i + q))
+            };
+            if !ok {
+                d.violation("mixed:datagram-not-intact", format!("the server's datagram socket received {} bytes that are no datagram any client sent: {}", g.len(), crate::hex(&g[..g.len().min(24)])), witness(json!({})));
+                return;
+            }
+            *seen.entry((u32::from_be_bytes(g[1..5].try_into().unwrap()), g[5])).or_insert(0) += 1;
+        }
+        let sent: usize = plans.iter().map(|p| p.side_dgrams).sum();
+        d.tally("mixed_transport_runs", 1);
+        d.tally("side_datagrams_sent", sent as u64);
+        d.tally("side_datagrams_received", got.len() as u64);
+        if !faults {
+            if let Some(((id, q), n)) = seen.iter().find(|(_, n)| **n > 1) {
+                d.violation("mixed:datagram-duplicated", format!("side datagram {q} of client {id} was delivered {n} times without duplication on the wire"), witness(json!({})));
+                return;
+            }
+            if rt == Rt::Paused && seen.len() != sent {
+                let missing: Vec<String> = plans.iter().flat_map(|p| (0..p.side_dgrams).filter(|q| !seen.contains_key(&(p.id, *q as u8))).map(move |q| format!("client {} #{} ({})", p.id, q, if p.side_first { "sent before the stream connected" } else { "sent after the first stream write" }))).collect();
+                d.violation("mixed:datagram-lost-on-lossless-network", format!("{} of {} datagrams sent next to the streams arrived although nothing was dropped; missing: {}", seen.len(), sent, missing.join(", ")), witness(json!({})));
+                return;
+            }
+        }
     }
     if inflight_max.load(Ordering::SeqCst) >= 2 && partial_read {
         d.nontrivial(crate::fnv_str(&desc.to_string()));
